@@ -184,8 +184,10 @@ Lemma do_remove_spec : forall D fuel p w cw h0,
   hinv D h0 -> findw h0 w = Some cw -> w_parent cw = Some p -> unqueued h0 w ->
   hoare (fun h => h = h0) (do_change fuel ChRemove p w)
         (fun _ h' => hinv D h' /\ keeps h0 h' /\
-                     exists cw', findw h' w = Some cw' /\ w_parent cw' = None /\ w_next cw' = None /\
-                                 w_first cw' = w_first cw /\ w_closed cw' = w_closed cw /\ w_focus cw' = w_focus cw).
+                     (exists cw', findw h' w = Some cw' /\ w_parent cw' = None /\ w_next cw' = None /\
+                                 w_first cw' = w_first cw /\ w_closed cw' = w_closed cw /\ w_focus cw' = w_focus cw) /\
+                     (forall a c, a <> w -> findw h0 a = Some c ->
+                        exists c', findw h' a = Some c' /\ w_parent c' = w_parent c /\ w_ref c' = w_ref c)).
 Proof.
   intros D fuel p w cw h0 HI Hw Hwp Hunq h E. subst h.
   destruct (hinv_in_parent_chain D h0 w cw p HI Hw Hwp) as [cp [l [Hp [Hch [Hin Hl]]]]].
@@ -256,13 +258,21 @@ Proof.
     - left. exact (rm_F_parent h0 h4 p w cw l1 s (clear_focus w) (clear_focus_keeps w) Hs CB a c Ea). }
   (* the final expose of the parent *)
   unfold bind at 1. rewrite (getw_run h4 w _ Hw4). cbn [w_visible set_parent set_next].
+  assert (Hexact : forall a c, a <> w -> findw h0 a = Some c ->
+            exists c', findw h4 a = Some c' /\ w_parent c' = w_parent c /\ w_ref c' = w_ref c).
+  { intros a c Ha Hfa. exists (remove_F p w s (w_next cw) a c). split; [eapply cells_by_some; eauto|].
+    split; [exact (rm_F_parent h0 h4 p w cw l1 s (clear_focus w) (clear_focus_keeps w) Hs CB a c Ha)|].
+    destruct (rm_F_flags h0 h4 p w cw l1 s (clear_focus w) (clear_focus_keeps w) Hs CB a c) as [_ [_ Hr3]]. exact Hr3. }
   assert (Hfin : forall h', rx_only h4 h' ->
             hinv D h' /\ keeps h0 h' /\
-            exists cw', findw h' w = Some cw' /\ w_parent cw' = None /\ w_next cw' = None /\
-                        w_first cw' = w_first cw /\ w_closed cw' = w_closed cw /\ w_focus cw' = w_focus cw).
-  { intros h' R. split; [eapply hinv_rx_only; eauto|]. split.
+            (exists cw', findw h' w = Some cw' /\ w_parent cw' = None /\ w_next cw' = None /\
+                        w_first cw' = w_first cw /\ w_closed cw' = w_closed cw /\ w_focus cw' = w_focus cw) /\
+            (forall a c, a <> w -> findw h0 a = Some c ->
+               exists c', findw h' a = Some c' /\ w_parent c' = w_parent c /\ w_ref c' = w_ref c)).
+  { intros h' R. split; [eapply hinv_rx_only; eauto|]. split; [|split].
     - eapply keeps_trans; eauto. apply rx_only_keeps. exact R.
-    - exists (set_parent (set_next cw None) None). rewrite (rx_only_findw h4 h' w R). repeat split; auto. }
+    - exists (set_parent (set_next cw None) None). rewrite (rx_only_findw h4 h' w R). repeat split; auto.
+    - intros a c Ha Hfa. rewrite (rx_only_findw h4 h' a R). apply Hexact; auto. }
   destruct (w_visible cw).
   - assert (Hlp : findw h4 p <> None).
     { destruct (kp_wins h0 h4 K4 p cp Hp) as [cp4 [Hcp4 _]]. congruence. }
